@@ -71,11 +71,71 @@ def check(run, prog, tier):
     with run.part("M7 generation state"):
         lifecycle_owner(run, prog, scan, "M7", SUBS)
     slots = Slots(prog, scan)
-    m = {n: prog.lookup_method(SUBS, n) for n in ("subscribe_eventgroup", "stop_subscribe_eventgroup", "stop", "start", "_subscribe",
-                                                  "_send_subscribe", "_send_start_subscribe", "_send_stop_subscribe")}
+    m = {n: prog.lookup_method(SUBS, n) for n in ("subscribe_eventgroup", "stop_subscribe_eventgroup", "stop", "start", "_subscribe")}
     if not all(m.values()):
         raise AnalysisError(f"{SUBS}: methods vanished: {[k for k, v in m.items() if v is None]}")
     run.analysed(*m.values())
+    send_sd = prog.lookup_method(PROTO, "send_sd")
+    cse = prog.lookup_method(EG, "create_subscribe_entry")
+    if send_sd is None or cse is None:
+        raise AnalysisError("send_sd / create_subscribe_entry vanished")
+    SUB_TTL = ("attr", ("attr", ("self", SUBS), "timings"), "SUBSCRIBE_TTL")
+    # what a call of one of the subscriber's own methods transmits is read from the method itself, with the call's
+    # arguments bound and the private methods it goes through analysed in place: the senders are found by what they do
+    # (reach sd.send_sd with [eg.create_subscribe_entry(ttl) for eg in entries]), not by what they are called
+    priv = tuple(f.qual for f in prog.functions.values() if f.cls is not None and f.cls.qual == SUBS and f.name.startswith("_")
+                 and not f.name.startswith("__") and f.kind == "method" and not f.is_async)
+    eng_s = engine(prog, InlineOnly(names=priv, props=False, max_depth=3))
+    _shapes = {}
+    sender_fns = set()
+
+    def parse_send(c):
+        """(ttl, server, eventgroups) of one send_sd call, None when it is not a list of Subscribe entries built from a collection"""
+        lst = c.args[0] if c.args else c.arg(None, "entries")
+        if c.recv == ("attr", ("self", SUBS), "sd") and lst is not None and lst[0] == "list" and lst[1] and all(
+                x[0] == "call" and x[1][0] in ("bound", "attr") and x[1][2] in (cse.qual, cse.name) for x in lst[1]):
+            # (the comprehension over a list display given at the call is evaluated element by element)
+            ttls = {dict(x[3]).get("ttl") or (x[2][0] if x[2] else None) for x in lst[1]}
+            return (next(iter(ttls)) if len(ttls) == 1 else None, c.arg(1, "remote"), ("list", tuple(x[1][1] for x in lst[1])))
+        if not (c.recv == ("attr", ("self", SUBS), "sd") and lst is not None and lst[0] == "comp" and len(lst[3]) == 1 and not lst[3][0][2]
+                and lst[2][0] == "call" and lst[2][1] in (("bound", lst[3][0][0], cse.qual), ("attr", lst[3][0][0], cse.name))):
+            return None
+        ttl = dict(lst[2][3]).get("ttl") or (lst[2][2][0] if lst[2][2] else None)
+        return (ttl, c.arg(1, "remote"), lst[3][0][1])
+
+    def send_shape(fn, args, kwargs=()):
+        key = (fn.qual, tuple(args), tuple(kwargs))
+        if key not in _shapes:
+            out = []
+            silent = 0
+            for p_ in eng_s.paths(fn, recv=SUBS, args=tuple(args), kwargs=tuple(kwargs)):
+                run.paths += 1
+                cs = calls_to(p_, send_sd.qual)
+                for c in cs:
+                    out.append(parse_send(c))
+                if not cs and p_.outcome[0] != "raise":
+                    silent += 1
+            if out and silent:
+                out.append(None)  # a sender that decides for itself not to send: what it is asked to transmit may never leave
+            _shapes[key] = out
+            if out:
+                sender_fns.add(fn)
+        return _shapes[key]
+
+    def transmissions(e):
+        """the (ttl, server, eventgroups) triples a call / scheduling event transmits; [] when it is no sender"""
+        if e.kind != "call":
+            return []
+        if e.sched:
+            if e.cb is not None and e.cb[0] == "bound" and e.cb[1] == ("self", SUBS) and e.cb[2] in prog.functions:
+                return send_shape(prog.functions[e.cb[2]], e.cbargs, e.cbkwargs)
+            return []
+        if any(f.qual == send_sd.qual for f in e.targets):
+            return [parse_send(e)]
+        if e.targets and e.targets[0].cls is not None and e.targets[0].cls.qual == SUBS and not e.targets[0].is_async and e.targets[0].kind == "method":
+            return send_shape(e.targets[0], e.args, e.kwargs)
+        return []
+    ttl_sites = []  # (function, role, ok, seen ttl)
     # the grouping of the requested pairs by server is found by what it does (it walks the requested set and files each
     # eventgroup under its server), wherever that code lives: it is analysed in place in the refresh round
     ge_named = prog.lookup_method(SUBS, "_group_entries")
@@ -149,37 +209,39 @@ def check(run, prog, tier):
                 a = sleep_arg(e)
                 if a is None or any(eval_term(a, timing_leaf(me, valuation=V)) != V["SUBSCRIBE_REFRESH_INTERVAL"] for V in TIMING_VALUATIONS):
                     sleeps_ok = False
-            elif e.kind == "call" and any(f.qual == m["_send_start_subscribe"].qual for f in e.targets):
-                # destination and eventgroups are the two halves of one element of a grouping D (its items / its keys),
-                # unfiltered: every server gets its *complete* group
-                a0, a1 = e.args[0] if e.args else None, e.args[1] if len(e.args) > 1 else None
-                D = None
-                if a0 is not None and a1 is not None:
-                    if a0[0] == "item" and a1[0] == "item" and a0[1] == a1[1] and a0[1][0] == "elem" and a0[2] == const(0) and a1[2] == const(1):
-                        it = unwrap_iter(a0[1][1])
-                        if it[0] == "call" and it[1][0] == "attr" and it[1][2] == "items":
-                            D = it[1][1]
-                    elif a0[0] == "elem" and a1[0] == "item" and a1[2] == a0:
-                        it = unwrap_iter(a0[1])
-                        if it == a1[1] or (it[0] == "call" and it[1][0] == "attr" and it[1][2] == "keys" and it[1][1] == a1[1]):
-                            D = a1[1]
-                while D is not None and D[0] == "call" and D[1][0] == "ext" and D[1][1] in ("dict", "collections.OrderedDict", "types.MappingProxyType") \
-                        and len(D[2]) == 1 and not D[3]:
-                    D = D[2][0]  # a copy / read-only view of the grouping has the grouping's content
-                if D is None:
-                    complete = False
-                    continue
-                # ... and D was filled from the requested set after the last await (a D nothing was filed into on this path
-                # has no elements: such a path is no execution)
-                filed = [x for x, D2, _ok in apps if D2 == D]
-                if not filed:
-                    if not any(strip_sites(D2) == strip_sites(D) for _x, D2, _ok in apps):
-                        unfilled.add(show(D)[:60])
-                    continue
-                if any(pos_of[id(x)] < last_await for x in filed):
-                    fresh = False  # D was filled before the last await
-                else:
-                    seen_fresh = True
+            elif e.kind == "call" and not e.sched and transmissions(e):
+                for shp in transmissions(e):
+                    # destination and eventgroups are the two halves of one element of a grouping D (its items / its keys),
+                    # unfiltered: every server gets its *complete* group
+                    ttl_sites.append((m["_subscribe"], "start", shp is not None and shp[0] == SUB_TTL, shp[0] if shp else None))
+                    a0, a1 = (shp[1], shp[2]) if shp is not None else (None, None)
+                    D = None
+                    if a0 is not None and a1 is not None:
+                        if a0[0] == "item" and a1[0] == "item" and a0[1] == a1[1] and a0[1][0] == "elem" and a0[2] == const(0) and a1[2] == const(1):
+                            it = unwrap_iter(a0[1][1])
+                            if it[0] == "call" and it[1][0] == "attr" and it[1][2] == "items":
+                                D = it[1][1]
+                        elif a0[0] == "elem" and a1[0] == "item" and a1[2] == a0:
+                            it = unwrap_iter(a0[1])
+                            if it == a1[1] or (it[0] == "call" and it[1][0] == "attr" and it[1][2] == "keys" and it[1][1] == a1[1]):
+                                D = a1[1]
+                    while D is not None and D[0] == "call" and D[1][0] == "ext" and D[1][1] in ("dict", "collections.OrderedDict", "types.MappingProxyType") \
+                            and len(D[2]) == 1 and not D[3]:
+                        D = D[2][0]  # a copy / read-only view of the grouping has the grouping's content
+                    if D is None:
+                        complete = False
+                        continue
+                    # ... and D was filled from the requested set after the last await (a D nothing was filed into on this path
+                    # has no elements: such a path is no execution)
+                    filed = [x for x, D2, _ok in apps if D2 == D]
+                    if not filed:
+                        if not any(strip_sites(D2) == strip_sites(D) for _x, D2, _ok in apps):
+                            unfilled.add(show(D)[:60])
+                        continue
+                    if any(pos_of[id(x)] < last_await for x in filed):
+                        fresh = False  # D was filled before the last await
+                    else:
+                        seen_fresh = True
         rounds = max(rounds, n_rounds)
         for c, v, _, _ in p.conds:
             if strip_sites(c) == ("cmp", "is", ("attr", ("attr", me, "timings"), "SUBSCRIBE_REFRESH_INTERVAL"), const(None)) and v and p.returns():
@@ -197,8 +259,8 @@ def check(run, prog, tier):
            f"rounds are separated by sleep(SUBSCRIBE_REFRESH_INTERVAL); {rounds} rounds on the longest enumerated path")
     run.ob("M4", f"{m['_subscribe'].qual}:no-refresh-when-interval-is-None", none_break, loc(m["_subscribe"]), "with no refresh interval exactly one round is sent")
     # every round sends to every group: loop over _group_entries().items()
-    it_ok = any(e.kind == "call" and any(f.qual == m["_send_start_subscribe"].qual for f in e.targets) and e.args and e.args[0][0] == "item" and e.args[0][1][0] == "elem"
-                for p in sp for e in p.events)
+    it_ok = any(shp is not None and shp[1] is not None and ((shp[1][0] == "item" and shp[1][1][0] == "elem") or shp[1][0] == "elem")
+                for p in sp for e in p.events if e.kind == "call" and not e.sched for shp in transmissions(e))
     run.ob("M4", f"{m['_subscribe'].qual}:every-server-every-round", it_ok, loc(m["_subscribe"]), "a round iterates over all (server, eventgroups) groups")
 
     # ------------------------------------------------------------------ M2 set discipline
@@ -227,7 +289,10 @@ def check(run, prog, tier):
         ok = len(app) == 1 and app[0].args == (("tuple", (eg, ep)),)
         run.ob("M2", f"{se.qual}:records-pair", ok, loc(se), f"records {show(app[0].args[0]) if app else 'nothing'}; expected (eventgroup, server)")
         if sch:
-            oks = alive == [True] and len(sch) == 1 and sch[0].cb == ("bound", me, m["_send_start_subscribe"].qual) and tuple(sch[0].cbargs) == (ep, ("list", (eg,)))
+            tx = [x for e_ in sch for x in transmissions(e_)]
+            oks = alive == [True] and len(sch) == 1 and len(tx) == 1 and tx[0] is not None and tx[0][1:] == (ep, ("list", (eg,)))
+            for x in tx:
+                ttl_sites.append((se, "start", x is not None and x[0] == SUB_TTL, x[0] if x else None))
             run.ob("M2", f"{se.qual}:immediate-subscribe-only-while-alive", oks, loc(se), f"schedules {show(sch[0].cb)}({', '.join(show(a) for a in sch[0].cbargs)}) under alive={alive}")
         else:
             run.ob("M2", f"{se.qual}:nothing-sent-while-stopped", alive == [False], loc(se), "while stopped the request is only recorded")
@@ -246,7 +311,10 @@ def check(run, prog, tier):
             run.ob("M2", f"{ss.qual}:no-stop-for-unknown-pair", not sch and p.returns(), loc(ss), "an unknown pair sends nothing")
         elif wants == [True]:
             seen.add("send")
-            ok = len(sch) == 1 and sch[0].cb == ("bound", me, m["_send_stop_subscribe"].qual) and tuple(sch[0].cbargs) == (ep, ("list", (eg,))) and rem[0].args == (("tuple", (eg, ep)),)
+            tx = [x for e_ in sch for x in transmissions(e_)]
+            ok = len(sch) == 1 and len(tx) == 1 and tx[0] is not None and tx[0][1:] == (ep, ("list", (eg,))) and rem[0].args == (("tuple", (eg, ep)),)
+            for x in tx:
+                ttl_sites.append((ss, "stop", x is not None and x[0] == const(0), x[0] if x else None))
             run.ob("M2", f"{ss.qual}:stop-after-removal", ok, loc(ss), f"after removing the pair one StopSubscribe for it is scheduled to its server ({len(sch)} scheduled)")
         else:
             seen.add("quiet")
@@ -264,7 +332,10 @@ def check(run, prog, tier):
             continue
         ok = stores[0].value == const(False) and all(stores[0].seq < e.seq for e in sch)
         for e in sch:
-            ok = ok and e.cb == ("bound", me, m["_send_stop_subscribe"].qual)
+            tx = transmissions(e)
+            ok = ok and len(tx) == 1 and tx[0] is not None
+            for x in tx:
+                ttl_sites.append((st, "stop", x is not None and x[0] == const(0), x[0] if x else None))
         cancels = [e for e in p.events if e.kind == "call" and e.attrname == "cancel"]
         run.ob("M2", f"{st.qual}:alive-cleared-then-stops[{len(sch)}]", ok and (len(cancels) >= 1 or not [c for c in p.conds if c[0] == ("attr", me, "task") and c[1]]), loc(st),
                f"alive := False first, then {len(sch)} StopSubscribe group(s) scheduled, refresh task cancelled {len(cancels)}x")
@@ -286,28 +357,21 @@ def check(run, prog, tier):
     run.ob("M2", f"{sta.qual}:alive-and-one-refresh-task", okst, loc(sta), "start() sets alive and creates exactly one refresh task")
 
     # ------------------------------------------------------------------ M3 entries and destination
-    send_sd = prog.lookup_method(PROTO, "send_sd")
-    cse = prog.lookup_method(EG, "create_subscribe_entry")
     s2e = prog.lookup_method(EG, "_sockaddr_to_endpoint")
-    run.analysed(cse, s2e)
-    sub = m["_send_subscribe"]
-    ttlp, remp, entp = (P(sub, param_at(sub, i, n)) for i, n in enumerate(("ttl", "remote", "entries")))
-    for p in e0.paths(sub, recv=SUBS):
-        run.paths += 1
-        c = calls_to(p, send_sd.qual)
-        ok = len(c) == 1 and c[0].recv == ("attr", me, "sd") and c[0].arg(1, "remote") == remp
-        if ok:
-            lst = c[0].args[0]
-            ok = lst[0] == "comp" and len(lst[3]) == 1 and lst[3][0][1] == entp and not lst[3][0][2] and lst[2][0] == "call" \
-                and lst[2][1] == ("bound", lst[3][0][0], cse.qual) and (dict(lst[2][3]).get("ttl") == ttlp or lst[2][2][:1] == (ttlp,))
-        run.ob("M3", f"{sub.qual}:entries-with-ttl-to-remote", ok, loc(sub), "sends [eg.create_subscribe_entry(ttl) for eg in entries] to the given server")
-    for name, want in (("_send_start_subscribe", ("attr", ("attr", me, "timings"), "SUBSCRIBE_TTL")), ("_send_stop_subscribe", const(0))):
-        fn = m[name]
-        for p in e0.paths(fn, recv=SUBS):
-            run.paths += 1
-            c = calls_to(p, sub.qual)
-            ok = len(c) == 1 and c[0].args == (want, P(fn, param_at(fn, 0, "remote")), P(fn, param_at(fn, 1, "entries")))
-            run.ob("M3", f"{fn.qual}:ttl", ok, loc(fn), f"passes TTL {show(c[0].args[0]) if c and c[0].args else '?'}; expected {show(want)}")
+    run.analysed(cse, s2e, *sorted(sender_fns, key=lambda f: f.qual))
+    # every transmission found above (the refresh round, the immediate Subscribe, the StopSubscribe of stop-subscribe and of
+    # stop()) is a list of Subscribe entries built from the eventgroups given, with the TTL of its role, sent to the server given
+    by_site = {}
+    for fn, role, ok, seen_ttl in ttl_sites:
+        k = (fn.qual, role)
+        cur = by_site.setdefault(k, [fn, True, set()])
+        cur[1] = cur[1] and ok
+        cur[2].add(show(seen_ttl) if seen_ttl is not None else "not a list of Subscribe entries")
+    for (q, role), (fn, ok, seen_ttls) in sorted(by_site.items()):
+        want = SUB_TTL if role == "start" else const(0)
+        run.ob("M3", f"{q}:{'subscribe' if role == 'start' else 'stop-subscribe'}-ttl", ok, loc(fn),
+               f"what {fn.name} transmits carries TTL {sorted(seen_ttls)}; expected {show(want)} in [eg.create_subscribe_entry(ttl) for eg in the eventgroups given]")
+    run.floor("M3-sites", len(by_site), 4)
     # grouping keeps (eventgroup -> its server)
     run.ob("M3", f"{(ge_named or m['_subscribe']).qual}:groups-by-server", bool(grouped_ok), loc(ge_named or m["_subscribe"]),
            "pairs are grouped by their server; each eventgroup stays with the server it was requested for" if grouped_ok else
